@@ -871,6 +871,38 @@ def lemma_uspace_loops(ctx):
         return [Outcome(ok(k), [k.t <= b.attrs["len"].t], events=[Event("pwrite", ev, k)]),
                 Outcome(AggV("Result", 1, [OpaqueV("Errno")], "Err"), events=[Event("pwrite", ev, "err")])]
     eng.add_summary(r"^rustix::io::pwrite::<", s_pwrite)
+    # the same transfers through the descriptor's shared cursor (seek + read/write): position-wise they are modelled
+    # like pread/pwrite at the cursor, but flagged -- block jobs of one file share both descriptors (C06)
+    def _cursor(eng, st, f):
+        k = "cursor:" + str(file_id(f, eng, st))
+        if k not in st.ghost:
+            st.ghost[k] = eng.fresh_int(st, "u64", "cursor")
+        return k
+
+    def s_seek(eng, st, callee, args, dty):
+        k = _cursor(eng, st, args[0])
+        w = args[1]
+        if not (isinstance(w, AggV) and w.vname == "Start"):
+            raise EngineAbort("seek: only SeekFrom::Start is modelled")
+        pos = w.fields[0]
+        st.ghost[k] = pos
+        return [Outcome(ok(pos), events=[Event("seek", [file_id(args[0], eng, st), pos], "ok")]),
+                Outcome(AggV("Result", 1, [OpaqueV("std::io::Error", None, {"kind": "Other"})], "Err"), events=[Event("seek", [file_id(args[0], eng, st), pos], "err")])]
+    eng.add_summary(r"^<&(std::fs::)?File as (std::io::)?Seek>::seek$|^<(std::fs::)?File as (std::io::)?Seek>::seek$", s_seek)
+
+    def s_cur_io(name):
+        def h(eng, st, callee, args, dty):
+            b = deref_ref(eng, st, args[1])
+            k = eng.fresh_int(st, "usize", "rlen" if name == "pread" else "wlen")
+            ck = _cursor(eng, st, args[0])
+            pos = st.ghost[ck]
+            ev = [file_id(args[0], eng, st), b.attrs["buf"], b.attrs["lo"], b.attrs["len"], pos, "cursor"]
+            st.ghost[ck] = IntV(pos.t + k.t, "u64")
+            return [Outcome(ok(k), [k.t <= b.attrs["len"].t], events=[Event(name, ev, k)]),
+                    Outcome(AggV("Result", 1, [OpaqueV("std::io::Error", None, {"kind": "Other"})], "Err"), events=[Event(name, ev, "err")])]
+        return h
+    eng.add_summary(r"^<&?(std::fs::)?File as (std::io::)?Read>::read$", s_cur_io("pread"))
+    eng.add_summary(r"^<&?(std::fs::)?File as (std::io::)?Write>::write$", s_cur_io("pwrite"))
     fn = fn_named(eng.funcs, "copy_range_uspace")
     st = State()
     n = eng.fresh_int(st, "usize", "nbytes")
@@ -893,6 +925,9 @@ def lemma_uspace_loops(ctx):
         w0 = evs[idx[0]].info["locals"][l_written] if idx else IntV(0, "usize")
         rd = [e for e in it if e.name == "pread"]
         wr = [e for e in it if e.name == "pwrite"]
+        shared = [e for e in it if e.name == "seek" or (e.name in ("pread", "pwrite") and e.args[-1] == "cursor")]
+        (ctx.fail if shared else ctx.passed)("C06: the block fallback is offset-addressed (pread/pwrite): concurrent block jobs of one file never "
+                                             "move or depend on the descriptors' shared cursor", str(trace_names(p)))
         for e in rd:
             ctx.lemma(eng, "C05: the fallback reads from the source at off+written, at most the remaining bytes, at least one", p.pc,
                       z3.And(e.args[4].t == off.t + w0.t, e.args[3].t >= 1, e.args[3].t <= n.t - w0.t, e.args[2].t == 0))
@@ -918,7 +953,7 @@ def lemma_uspace_loops(ctx):
                         ctx.fail("C04/C05: a failed pread/pwrite makes copy_range_uspace fail", str(trace_names(p)))
             else:
                 # errors are legitimate only for: failed call, zero read (premature EOF), short write
-                why = [e for e in rd + wr if is_errev(e)]
+                why = [e for e in it if e.name in ("pread", "pwrite", "seek") and is_errev(e)]
                 if not why:
                     r = rd[0].ret if rd else None
                     w = wr[0].ret if wr else None
@@ -1010,7 +1045,7 @@ def lemma_uspace_loops(ctx):
                     ctx.fail("C05: every successful read is followed by one write_all", str(trace_names(p)))
         elif p.status == "return":
             if is_ok(p.ret):
-                ctx.lemma(eng, "C05: copy_bytes_uspace returns Ok only with every requested byte copied", p.pc, p.ret.fields[0].t == n.t)
+                ctx.lemma(eng, "C05/C07: copy_bytes_uspace returns Ok only with every requested byte copied (never a zero count: the caller's loop relies on progress)", p.pc, p.ret.fields[0].t == n.t)
             bad = [e for e in it if isinstance(e.ret, str) and e.ret == "err"]
             if bad and not is_err(p.ret):
                 ctx.fail("C04/C05: a failed read/write makes copy_bytes_uspace fail", str(trace_names(p)))
